@@ -18,7 +18,7 @@ func init() {
 	})
 	register(&Rule{
 		ID:    "C10.alias",
-		Props: []string{"C10"},
+		Props: []string{"C10", "C16"},
 		Doc:   "no mutable alias of a geometry's internals escapes or is captured: every exported function/method of geom and rtree that returns a raw slice returns freshly allocated memory; every slice stored into a field of a newly built protected value is fresh or already protected (shared immutable internals) — never a bare caller-supplied slice (NewSequence is the documented exception)",
 		Floor: 30,
 		Run:   runC10Alias,
